@@ -107,7 +107,7 @@ ssize_t files_read(int fd, void *buf, size_t n);
 ssize_t files_write(int fd, const void *buf, size_t n);
 bool files_close(int fd);
 void files_reset();
-void files_arm_stop(long n, bool once = false);
+void files_arm_stop(long n, bool once = false, long torn_permille = -1);
 long files_mut_calls();
 void files_set_mtime(const std::string &p, time_t t);
 void files_save_state(const std::string &path);
